@@ -86,6 +86,48 @@ RECURSIVE Run(_, _, _)
 Run(st, toks, i) == IF i > Len(toks) THEN Finish(st) ELSE Run(Step(st, toks[i], i), toks, i + 1)
 Parse(toks) == Run(Init0, toks, 1)
 
+
+RECURSIVE NatDigitsP(_)
+NatDigitsP(n) == IF n < 10 THEN <<48 + n>> ELSE NatDigitsP(n \div 10) \o <<48 + (n % 10)>>
+\* the spelling the harness uses for each token class (text token i is spelled t<i>;)
+SpellOf(c, i) ==
+  IF c = "text" THEN <<116>> \o NatDigitsP(i) \o <<59>>
+  ELSE IF c = "if" THEN <<123, 37, 32, 105, 102, 32, 99, 32, 37, 125>>
+  ELSE IF c = "unless" THEN <<123, 37, 32, 117, 110, 108, 101, 115, 115, 32, 99, 32, 37, 125>>
+  ELSE IF c = "case" THEN <<123, 37, 32, 99, 97, 115, 101, 32, 99, 32, 37, 125>>
+  ELSE IF c = "for" THEN <<123, 37, 32, 102, 111, 114, 32, 105, 32, 105, 110, 32, 97, 32, 37, 125>>
+  ELSE IF c = "tablerow" THEN <<123, 37, 32, 116, 97, 98, 108, 101, 114, 111, 119, 32, 105, 32, 105, 110, 32, 97, 32, 37, 125>>
+  ELSE IF c = "capture" THEN <<123, 37, 32, 99, 97, 112, 116, 117, 114, 101, 32, 118, 32, 37, 125>>
+  ELSE IF c = "comment" THEN <<123, 37, 32, 99, 111, 109, 109, 101, 110, 116, 32, 37, 125>>
+  ELSE IF c = "raw" THEN <<123, 37, 32, 114, 97, 119, 32, 37, 125>>
+  ELSE IF c = "else" THEN <<123, 37, 32, 101, 108, 115, 101, 32, 37, 125>>
+  ELSE IF c = "elsif" THEN <<123, 37, 32, 101, 108, 115, 105, 102, 32, 99, 32, 37, 125>>
+  ELSE IF c = "when" THEN <<123, 37, 32, 119, 104, 101, 110, 32, 49, 32, 37, 125>>
+  ELSE IF c = "tag" THEN <<123, 37, 32, 97, 115, 115, 105, 103, 110, 32, 122, 32, 61, 32, 49, 32, 37, 125>>
+  ELSE IF c = "obj" THEN <<123, 123, 32, 99, 32, 125, 125>>
+  ELSE IF c = "endif" THEN <<123, 37, 32, 101, 110, 100, 105, 102, 32, 37, 125>>
+  ELSE IF c = "endunless" THEN <<123, 37, 32, 101, 110, 100, 117, 110, 108, 101, 115, 115, 32, 37, 125>>
+  ELSE IF c = "endcase" THEN <<123, 37, 32, 101, 110, 100, 99, 97, 115, 101, 32, 37, 125>>
+  ELSE IF c = "endfor" THEN <<123, 37, 32, 101, 110, 100, 102, 111, 114, 32, 37, 125>>
+  ELSE IF c = "endtablerow" THEN <<123, 37, 32, 101, 110, 100, 116, 97, 98, 108, 101, 114, 111, 119, 32, 37, 125>>
+  ELSE IF c = "endcapture" THEN <<123, 37, 32, 101, 110, 100, 99, 97, 112, 116, 117, 114, 101, 32, 37, 125>>
+  ELSE IF c = "endcomment" THEN <<123, 37, 32, 101, 110, 100, 99, 111, 109, 109, 101, 110, 116, 32, 37, 125>>
+  ELSE IF c = "endraw" THEN <<123, 37, 32, 101, 110, 100, 114, 97, 119, 32, 37, 125>>
+  ELSE <<>>
+
+\* the bodies of the raw blocks of a sequence, in document order: the spellings of the tokens between each
+\* raw tag (met outside comment and raw) and the first endraw after it
+RECURSIVE RawBodies(_, _, _, _)
+RawBodies(toks, i, mode, cur) ==
+  IF i > Len(toks) THEN <<>>
+  ELSE IF mode = "comment" THEN RawBodies(toks, i + 1, IF toks[i] = "endcomment" THEN "normal" ELSE "comment", cur)
+  ELSE IF mode = "raw" THEN
+    (IF toks[i] = "endraw" THEN <<cur>> \o RawBodies(toks, i + 1, "normal", <<>>)
+     ELSE RawBodies(toks, i + 1, "raw", cur \o SpellOf(toks[i], i)))
+  ELSE IF toks[i] = "comment" THEN RawBodies(toks, i + 1, "comment", cur)
+  ELSE IF toks[i] = "raw" THEN RawBodies(toks, i + 1, "raw", <<>>)
+  ELSE RawBodies(toks, i + 1, "normal", cur)
+
 \* ------------------------------------------------- declarative recogniser
 \* An independent formulation of the accepted language, by recursive
 \* descent on the grammar
